@@ -1,5 +1,5 @@
 #!/bin/bash
-# Confirms round-2 seeded changes: usage confirm_r2.sh <out.tsv> <ids...>  (ids like C01C)
+# Confirms seeded changes written by sub-agents (ROUND=r2|r3 selects /tmp/wt/$ROUND-<prop>-out): usage confirm_r2.sh <out.tsv> <ids...>  (ids like C01C)
 # For each: scratch worktree of /repo (HEAD, else the commit the sub-agent worked from), build, full suite with the
 # patch, demonstration with and without the patch. The worktree is removed afterwards.
 export GOFLAGS=-mod=mod GOPROXY=off GOSUMDB=off GOTOOLCHAIN=local
@@ -7,7 +7,7 @@ out="$1"; shift
 WT=/tmp/wt/confirm-$$
 for id in "$@"; do
   pid=${id%?}
-  dir=/tmp/wt/r2-$pid-out
+  dir=/tmp/wt/${ROUND:-r2}-$pid-out
   patch=$dir/$id.patch.diff
   meta=$dir/$id.meta.json
   demo=$(ls $dir/${id}_demo_test.go 2>/dev/null)
@@ -16,7 +16,7 @@ for id in "$@"; do
   base=HEAD
   git -C /repo worktree add -q --detach $WT HEAD
   if ! git -C $WT apply --check $patch 2>/dev/null; then
-    git -C /repo worktree remove --force $WT; base=${R2BASE:-10b7b59}
+    git -C /repo worktree remove --force $WT; base=${R2BASE:-12144b4}
     git -C /repo worktree add -q --detach $WT $base
   fi
   case "$place" in *.go) dest=$WT/$place;; *) dest=$WT/$place/zz_${id}_demo_test.go;; esac
